@@ -10,7 +10,9 @@ Next == /\ ndecl < Depth
               /\ (t \in UseTypes \/ t \in {NT + u : u \in UseTypes} \/ t \in {2 * NT + u : u \in UseTypes} \/ t = EnumT)
               /\ \E n \in (IF k = "base" THEN {NameOfType(t)} ELSE UseNames) :
                     /\ Declare(s, k, n, t)
-                    /\ hist' = (IF Record THEN Append(hist, [ev |-> sclast', o |-> Obs(decls', s)]) ELSE hist)
+                    /\ hist' = (IF Record THEN Append(hist, [ev |-> sclast', o |-> Obs(decls', s),
+                                                            \* asked just before the call: is the name taken, and by which declaration of that type?
+                                                            pre |-> <<IF Declared(decls, s, n) THEN 1 ELSE 0, Select(decls, s, n, t)>>]) ELSE hist)
 Spec == Init /\ [][Next]_vars
 Emit == (Record /\ ndecl = Depth) => PrintT(<<"BEH", ToJson(hist)>>)
 AppendOnlyMC == [][\A s \in Scopes : Len(decls'[s]) >= Len(decls[s]) /\ SubSeq(decls'[s], 1, Len(decls[s])) = decls[s]]_vars
